@@ -270,6 +270,47 @@ func randomCase(r *rand.Rand, typ string, max int) rh.Case {
 	r.Shuffle(len(local), func(i, j int) { local[i], local[j] = local[j], local[i] })
 	r.Shuffle(len(remote), func(i, j int) { remote[i], remote[j] = remote[j], remote[i] })
 	r.Shuffle(len(c.Sec), func(i, j int) { c.Sec[i], c.Sec[j] = c.Sec[j], c.Sec[i] })
+	c.Fault = rh.Fault{T: "none"}
+	switch {
+	case r.Intn(8) == 0:
+		// the primary was rebuilt / restored from an older snapshot: every remote index is below lastRemoteIndex and
+		// what the secondary holds is unrelated to it
+		c.Back, c.Last = true, 9
+		for i := range local {
+			if local[i].ID == 0 {
+				continue
+			}
+			nc := 1 + r.Intn(nContents)
+			local[i].C = nc
+			if local[i].H != 0 {
+				local[i].H = nc
+			}
+			for j := range c.Sec {
+				if c.Sec[j].ID == local[i].ID && !c.Sec[j].LO {
+					c.Sec[j].C, c.Sec[j].H = local[i].C, local[i].H
+				}
+			}
+		}
+	case (typ == "policy" || typ == "token") && r.Intn(5) == 0:
+		// the batch read of this round is answered by a lagging server of the primary
+		var cand []rh.Obj
+		for _, o := range remote {
+			if o.ID != 0 {
+				cand = append(cand, o)
+			}
+		}
+		if len(cand) > 0 {
+			k := cand[r.Intn(len(cand))]
+			oc := 1 + r.Intn(6)
+			if oc == k.C {
+				oc = oc%6 + 1
+			}
+			c.Fault = rh.Fault{T: []string{"stale", "omit"}[r.Intn(2)], ID: k.ID, OC: oc, Mod: r.Intn(2) == 0}
+			if c.Fault.T == "stale" {
+				c.Fault.Mod = true
+			}
+		}
+	}
 	c.InL, c.InR = local, remote
 	c.Seed = r.Int63()
 	if r.Intn(2) == 0 {
